@@ -95,7 +95,18 @@ func (x *X) execGhost(f *Frame, st *State, g *GhostStmt, pos token.Pos) {
 		if g.Name != "" {
 			name = "hint:" + g.Name
 		}
-		x.c.obligeNamed(name, "hint", st.pc, t, x.pos(pos), g.Text)
+		// one obligation per conjunct (as for postconditions and invariants): smaller queries
+		if parts := splitGoal(t); len(parts) > 1 {
+			for i, p := range parts {
+				pn := ""
+				if name != "" {
+					pn = fmt.Sprintf("%s/%d", name, i+1)
+				}
+				x.c.obligeNamed(pn, "hint", st.pc, p, x.pos(pos), g.Text)
+			}
+		} else {
+			x.c.obligeNamed(name, "hint", st.pc, t, x.pos(pos), g.Text)
+		}
 		x.c.assume(st.pc, t)
 	case "assume":
 		t := x.specBool(env, g.Expr)
@@ -116,7 +127,21 @@ func (x *X) execGhost(f *Frame, st *State, g *GhostStmt, pos token.Pos) {
 }
 
 func (x *X) specEnvFor(f *Frame, st *State, pos token.Pos) *SpecEnv {
-	return &SpecEnv{x: x, st: st, old: f.old, names: map[string]Value{}, oldNames: f.entryNames, pkg: f.pkg, frame: f, pos: pos}
+	names := map[string]Value{}
+	if f.top {
+		// inside a loop body: the loop's iteration names (itN, seqN, cntN; it/seq/cnt for the innermost)
+		for _, L := range f.activeLoops {
+			for k, fn := range L.names {
+				if k == "it" || k == "seq" || k == "cnt" {
+					continue // the unnumbered aliases are for the loop's own invariants only
+				}
+				if v := fn(st); v.T != nil {
+					names[k] = v
+				}
+			}
+		}
+	}
+	return &SpecEnv{x: x, st: st, old: f.old, names: names, oldNames: f.entryNames, pkg: f.pkg, frame: f, pos: pos}
 }
 
 func (x *X) stmt(f *Frame, st *State, s ast.Stmt) *State {
@@ -249,7 +274,14 @@ func (x *X) multi(f *Frame, st *State, e ast.Expr) []Value {
 		if mt, ok := base.T.Underlying().(*types.Map); ok {
 			k := x.exprTyped(f, st, n.Index, mt.Key())
 			has, val := x.mapLoad(st, base, x.mapKeyTerm(k))
-			return []Value{iteValue(has, val, zeroValue(mt.Elem())), boolVal(has)}
+			x.wfValue(st, val) // values stored in maps are Go values (see indexValue)
+			iv := iteValue(has, val, zeroValue(mt.Elem()))
+			for i, ct := range iv.C {
+				if ct != nil && !ct.Bound && ct.Op == "ite" {
+					iv.C[i] = x.c.abbreviate("mg", ct)
+				}
+			}
+			return []Value{iv, boolVal(has)}
 		}
 	case *ast.TypeAssertExpr:
 		v, ok := x.typeAssert(f, st, n)
